@@ -71,6 +71,13 @@ def embedCoeffs (N : Nat) (conjInv : Bool) (slots : Nat) (re im : List Int) : Li
 def encodeConst (N : Nat) (conjInv : Bool) (P : Nat) (scale : Dy) (slots : Nat) (re im : SD) : List Int :=
   embedCoeffs N conjInv slots [fixedPoint P re scale] [fixedPoint P im scale]
 
+/-- slot encoding of the slot vector of an integer polynomial: if the input values are (a floating-point
+    approximation, far inside the rounding margin, of) the canonical embedding of the polynomial with
+    integer coefficients `re` (and `im` on the right half) divided by the scale, `Encode` returns exactly
+    that polynomial.  In the conjugate-invariant ring the imaginary parts of the inputs are discarded. -/
+def encodePoly (N : Nat) (conjInv : Bool) (slots : Nat) (re im : List Int) : List Int :=
+  embedCoeffs N conjInv slots re (if conjInv then [] else im)
+
 /-- coefficient-domain encoding (`IsBatched = false`). -/
 def encodeCoeffs (N : Nat) (P : Nat) (scale : Dy) (vals : List SD) : List Int :=
   (List.range N).map fun j => match vals[j]? with
